@@ -127,3 +127,22 @@ Definition cgmy_integrate_x_neg Gup c g y a b : R := c * (cgmy_tail_x Gup y (- a
 Definition cgmy_nu (c g m y x : R) : R :=
   if Rltb x 0 then c * exp (- g * Rabs x) / Rpower (Rabs x) (y + 1)
   else if Rltb 0 x then c * exp (- m * Rabs x) / Rpower (Rabs x) (y + 1) else 0.
+
+(* CGMY tails WITH the branch structure the code executes (E1 stands for scipy.special.exp1):
+   __integrate_h_to_inf(alpha, h, u):  alpha == 0 -> exp1(uh);
+                                      alpha >= 1 -> exp(-uh)/(alpha h^alpha) - (u/alpha) * __integrate_h_to_inf(alpha - 1, h, u);
+                                      otherwise the incomplete-gamma closed form cgmy_tail.
+   One recursion step is unrolled: for alpha < 2 (every admissible y) the inner call has alpha - 1 < 1 and does not recurse. *)
+Definition cgmy_tail_code (E1 : R -> R) (Gup : R -> R -> R) (alpha h u : R) : R :=
+  if Reqb alpha 0 then E1 (u * h)
+  else if Rleb 1 alpha
+       then exp (- (u * h)) / (alpha * Rpower h alpha)
+            - u / alpha * (if Reqb (alpha - 1) 0 then E1 (u * h) else cgmy_tail Gup (alpha - 1) h u)
+       else cgmy_tail Gup alpha h u.
+(* __integrate_h_to_inf_for_xx(alpha, h, u): alpha == 1.0 -> exp1(uh); otherwise cgmy_tail_x *)
+Definition cgmy_tail_x_code (E1 : R -> R) (Gup : R -> R -> R) (alpha h u : R) : R :=
+  if Reqb alpha 1 then E1 (u * h) else cgmy_tail_x Gup alpha h u.
+Definition cgmy_mass_pos_code E1 Gup c m y a b : R := c * cgmy_tail_code E1 Gup y a m - c * cgmy_tail_code E1 Gup y b m.
+Definition cgmy_mass_neg_code E1 Gup c g y a b : R := c * cgmy_tail_code E1 Gup y (- b) g - c * cgmy_tail_code E1 Gup y (- a) g.
+Definition cgmy_x_pos_code E1 Gup c m y a b : R := c * (cgmy_tail_x_code E1 Gup y a m - cgmy_tail_x_code E1 Gup y b m).
+Definition cgmy_x_neg_code E1 Gup c g y a b : R := c * (cgmy_tail_x_code E1 Gup y (- a) g - cgmy_tail_x_code E1 Gup y (- b) g).
